@@ -289,7 +289,7 @@ func runJobs(ld *Loaded, prop *Property, jobs []Job, workers, timeoutMs int, dea
 				j := jobs[k]
 				lim := sx.Limits{MaxPaths: j.MaxPaths, MaxSteps: j.MaxSteps, MaxFan: 300, Deadline: deadline}
 				if lim.MaxPaths == 0 {
-					lim.MaxPaths = 200000
+					lim.MaxPaths = 30000
 				}
 				if lim.MaxSteps == 0 {
 					lim.MaxSteps = 5000000
